@@ -215,6 +215,10 @@ func (opt *Option) DeepCopy() Option {
 	for _, assignment := range opt.Assignments {
 		clone.Assignments = append(clone.Assignments, assignment.DeepCopy())
 	}
+	if opt.Default != nil {
+		optDefault := opt.Default.DeepCopy()
+		clone.Default = &optDefault
+	}
 
 	return clone
 }
@@ -225,6 +229,14 @@ func (opt *Option) AddToVeneerTrail(veneerName string) {
 
 type OptionDefault struct {
 	ArgsValues []any
+}
+
+func (optDefault *OptionDefault) DeepCopy() OptionDefault {
+	clone := OptionDefault{}
+
+	clone.ArgsValues = append(clone.ArgsValues, optDefault.ArgsValues...)
+
+	return clone
 }
 
 type Argument struct {
